@@ -796,20 +796,39 @@ def pupil_aberration(ctx):
                     roles['REF'] = nm
                 else:
                     roles['D'] = nm
-            if len(roles) == 3 and len(names) == 3:
+            # the vignetting factor of this component: a name bound by
+            # `vx, vy = ....get_vig_factor(Hx, Hy)`
+            vig = None
+            for st_ in ast.walk(f.node):
+                if isinstance(st_, ast.Assign) and isinstance(
+                        st_.targets[0], ast.Tuple) and \
+                        len(st_.targets[0].elts) == 2 and \
+                        isinstance(st_.value, ast.Call) and \
+                        unparse(st_.value.func).endswith('get_vig_factor') \
+                        and [unparse(a_) for a_ in st_.value.args] == \
+                        ['Hx', 'Hy']:
+                    vig = unparse(st_.targets[0].elts[0 if comp == 'x'
+                                                      else 1])
+            vnames = sorted({n.id for n in ast.walk(d[1])
+                             if isinstance(n, ast.Name) and n.id == vig})
+            if len(roles) == 3 and len(names) == 3 and vig:
                 try:
-                    ev = Ev(sym=Sym(), env={nm: Rat.atom(nm) for nm in names})
+                    ev = Ev(sym=Sym(), env={nm: Rat.atom(nm)
+                                            for nm in names + [vig]})
                     got = ev.ev(d[1])
                     want = Rat.const(100) * (
-                        Rat.atom(roles['REF']) - Rat.atom(roles['REAL'])) / \
+                        Rat.atom(roles['REF']) * (ONE - Rat.atom(vig)) -
+                        Rat.atom(roles['REAL'])) / \
                         Rat.atom(roles['D'])
                     if rat_eq(got, want):
                         pat = {k: ast.Name(id=v) for k, v in roles.items()}
                 except Inconclusive:
                     pat = None
         if not pat:
-            bad(f.node, f'error_{comp} is not 100 * (paraxial - real) / d',
-                f'error {comp} formula')
+            bad(f.node, f'error_{comp} is not 100 * (paraxial (1 - v{comp}) - '
+                f'real) / d: the real fan of a vignetted field is launched '
+                f'towards P (1 - v), the reference must be the same pupil '
+                f'point', f'error {comp} formula')
             continue
         ref, real, dd = (defs.get(unparse(pat[k])) for k in
                          ('REF', 'REAL', 'D'))
